@@ -133,7 +133,7 @@ CHECKS['C03'] = dict(
           '(self-kill) or n-th stdout line (external SIGKILL), optional second crash; non-trivial iff a signature had been released before the kill or the '
           'kill fell after the first storage read of a request (inside the record/sign/reply window); for L1 a history in which at least one Sign invocation '
           'was checked; distinct = sha256 of the case JSON'),
-    essential=['kill@store.fetch.enter', 'kill@store.fetch.exit', 'kill@store.store.enter OR kill@store.batch.enter', 'kill@store.store.exit OR kill@store.batch.exit', 'kill@sign.enter', 'kill@sign.exit', 'kill@return', 'kill@released', 'double-crash', 'external-sigkill',
+    essential=['kill@store.fetch.enter OR kill@store.store.enter OR kill@store.batch.enter', 'kill@store.fetch.exit OR kill@store.store.exit OR kill@store.batch.exit', 'kill@store.store.enter OR kill@store.batch.enter', 'kill@store.store.exit OR kill@store.batch.exit', 'kill@sign.enter', 'kill@sign.exit', 'kill@return', 'kill@released', 'double-crash', 'external-sigkill',
                'kill-after-a-release', 'traced', 'release-markers-checked-for-durability', 'record-checked-at-sign-invocation',
                'history-with-all-crash-points-enumerated', 'history-with-concurrent-requests', 'l1-requests-sent-concurrently'],
     assumptions=['strace -f -y is available and ptrace is permitted', 'badger recovery code and the kernel are trusted',
@@ -289,7 +289,7 @@ CHECKS['C10'] = dict(
     parts=[part('TestC10', 120, 1200, qshards=4)],
     rule=('a case is a history of 1-10 steps; non-trivial iff some successfully imported well-formed entry was newer than the database in one field and older in another, or a file named one key twice; '
           'distinct = sha256 of the case JSON'),
-    essential=['imports-exit-0-wellformed', 'entry-newer-in-one-field-older-in-another', 'file-names-a-key-twice', 'metadata-rejections', 'malformed-file-exit-0',
+    essential=['imports-exit-0-wellformed', 'entry-newer-in-one-field-older-in-another', 'file-names-a-key-twice', 'metadata-rejections', 'malformed-file-submitted',
                'first-import-into-empty-db', 'import-after-restart', 'probes', 'file-with-value>=2^63-1'],
     assumptions=['the interchange merge logic lives in package main and is reached only through the binary'],
 )
